@@ -16,6 +16,7 @@ HISTORY_TAGS = {
     80: (0, 4),
     100: (6, 4),
     110: (0, 4),
+    120: (2, 4),
     130: (1, 4),
     140: (1, 4),
     150: (6, 4),
@@ -144,6 +145,15 @@ PROPS.update({
         "rule": "harness built with features serde + serde_repr; inputs are serde_json::Value trees fed through serde_json::from_value. tag 190: every integer of -300..17000 (thorough -70000..70000) plus boundaries for each restricted integer type; all u8-ish values for ShortMessageType; names/forms for TimeCodeType and DataType; for every composite type the product of boundary values per field x {map, map with unknown key, sequence, missing field, short sequence, long sequence, wrong-typed field}, unknown variants, unit/newtype/struct variant forms, wrong JSON types; after a successful deserialization the panicking accessors (type(), lsb_controller_number(), to_short_messages()) are called. tag 191: serialize -> deserialize round trip of valid values of every type",
         "exhaustive": {},
         "assumptions": ["serde, serde_derive, serde_repr, serde_json are trusted (modelled in Model/Serde.v, tied by the correspondence)"],
+    },
+})
+
+PROPS.update({
+    "C12": {
+        "runs": [("C12", "std", "normal")],
+        "rule": "mock clock. tag 120: (a) every conforming action sequence of the documented-forms grammar up to depth 6 (thorough 8) on one channel over {number MSB/LSB, cc38, cc6, increment, poll, tick(timeout), tick(timeout-1)}, timeouts 0 and 5; (b) seeded random: arbitrary prior traffic, then conforming streams interleaved on up to 16 channels with random values, polls, non-contributing messages and time steps below/at/above the timeout, timeouts 0,1,5,1000,2^60; (c) encode any ParameterNumberMessage (8 kinds, both byte orders), feed, poll after the timeout, after arbitrary prior traffic. The decider is the extracted grammar transducer (g_run), independent of the scanner model; conformance of the generated stream is re-checked by it",
+        "exhaustive": {},
+        "assumptions": ["the mock clock stands in for std::time::Instant"],
     },
 })
 
